@@ -214,7 +214,7 @@ def np_array(models, it, args, kw, fr, node):
         return SArr1(v.val, v.ndim)
     if is_num(v):
         return SArr1(v, 0)
-    if isinstance(v, Ref) and isinstance(run.obj(v), HList) and all(
+    if isinstance(v, Ref) and isinstance(run.obj(v), HList) and run.obj(v).items and all(
             x is None or isinstance(x, SOpt) for x in run.obj(v).items):
         # np.array([None, None]): an object array used as a mutable pair
         return run.alloc(HList(run.obj(v).items))
